@@ -101,6 +101,11 @@ def sequential(res: Result, rng: random.Random, tier: str, fails: list, div: lis
                 lines.append(f"GENINIT {t} {low}")
                 reals.append(str(v))
                 metas.append(("init", t, low, v))
+                # … and the draws that follow from a generator started this way (the start may sit right below the wrap)
+                vals = draws(g.next_sequence, 6, int, fails, f"GENSEQ seq {v} 6 (include_now={t}, low={low})")
+                lines.append(f"GENSEQ seq {v} 6")
+                reals.append(" ".join(map(str, vals)))
+                metas.append(("seq", v, vals, SEQ_MAX))
         # session ids: format and fields
         alphabet = ["node.x", "a", "host.example.net", "Ünï.x", "x" * 40]
         for k in range(40 if tier == "quick" else 400):
